@@ -176,7 +176,7 @@ pub fn judge(out: &Outcome, what: &str, text: &str, wit: &serde_json::Value, deb
             if r.mirror_asserts && r.decoded.is_err() {
                 return Err(Failure::new(
                     format!("{what}:mirror-assert-nodes-merged-by-sharing"),
-                    format!("the program contains an assertl and an assertr node with the same CMR (a case with two identical branches, pruned to the left in one place and to the right in another); encoding merges them and the result does not decode: {}{}", out.brief(), ctxt()),
+                    format!("the program contains case / assertl / assertr nodes of different kind with the same identity hash (e.g. a case with two identical branches pruned to the left in one place and to the right in another, or kept whole in one place and pruned in another); the dependency's encoder shares nodes by that hash, merges them, and the result does not decode: {}{}", out.brief(), ctxt()),
                 )
                 .with(detail()));
             }
@@ -190,7 +190,7 @@ pub fn judge(out: &Outcome, what: &str, text: &str, wit: &serde_json::Value, deb
             if e1 != e2 && r.mirror_asserts {
                 return Err(Failure::new(
                     format!("{what}:mirror-assert-nodes-merged-by-sharing"),
-                    format!("the program contains an assertl and an assertr node with the same CMR (a case with two identical branches, pruned to the left in one place and to the right in another); encoding merges them, so the decoded program takes a hidden branch: {}{}", out.brief(), ctxt()),
+                    format!("the program contains case / assertl / assertr nodes of different kind with the same identity hash (e.g. a case with two identical branches pruned to the left in one place and to the right in another, or kept whole in one place and pruned in another); the dependency's encoder shares nodes by that hash and merges them, so the decoded program takes a hidden branch: {}{}", out.brief(), ctxt()),
                 )
                 .with(detail()));
             }
